@@ -17,7 +17,7 @@ READY = True
 LEVEL = "exploration"
 TECHNIQUE = ("runtime monitoring: every graph returned by create_nxgraph / connected_components / calc_distance_to_bus on seeded "
              "multi-island networks x random option vectors is compared with a table-loop reference model (union-find, Dijkstra)")
-CASES = {"quick": 800, "thorough": 25000}
+CASES = {"quick": 500, "thorough": 15000}
 BUDGET = {"quick": 60, "thorough": 1200}
 GRAPHS_PER_CASE = 3
 N_VARIANTS = 3
